@@ -7,6 +7,7 @@ import (
 	"github.com/oneconcern/datamon/pkg/storage"
 	"github.com/oneconcern/datamon/pkg/storage/localfs"
 	"github.com/spf13/afero"
+	"io"
 	"os"
 	"path/filepath"
 	"sort"
@@ -33,6 +34,10 @@ type c15Actor struct {
 	label    string
 	target   int
 	diamond  string
+	mu       sync.Mutex
+	finished bool
+	full     map[string][2]uint64 // upload: the tree the source holds (tree = what the bundle must hold)
+	victim   string               // upload: the listed file the source cannot open ("" = none)
 }
 
 // c15Pool: a few contents shared by everybody, so that concurrent operations write the same blobs
@@ -42,6 +47,10 @@ func c15Tree(r *tr.Rng, leaf int) map[string][2]uint64 {
 	for len(t) < n {
 		name := fmt.Sprintf("%s%c", r.PickS("", "d/", "d/e/"), 'a'+byte(r.Intn(8)))
 		t[name] = [2]uint64{uint64(1 + r.Intn(4)), uint64(r.Pick(0, 1, leaf, 2*leaf+3, 3*leaf, 40))}
+		if r.Intn(12) == 0 {
+			// longer than one 32 KiB write of io.Copy
+			t[name] = [2]uint64{uint64(1 + r.Intn(4)), uint64(40000 + r.Intn(30000))}
+		}
 	}
 	return t
 }
@@ -90,6 +99,26 @@ func c15Emit(c *ctx, env *corekit.Env, leaf int, per uint, a *c15Actor, what str
 		c.w.Op("download sel=all", "ok files="+c04ShowFiles(files))
 	}
 	c.w.End()
+}
+
+// c15Src is a consumable store whose readers are plain io.Readers and which fails to open one key.
+type c15Src struct {
+	*memstore.Store
+	unreadable string
+}
+
+func (s *c15Src) Get(ctx context.Context, k string) (io.ReadCloser, error) {
+	if s.unreadable != "" && k == s.unreadable {
+		return nil, fmt.Errorf("injected: %q cannot be opened", k)
+	}
+	rc, err := s.Store.Get(ctx, k)
+	if err != nil {
+		return nil, err
+	}
+	return struct {
+		io.Reader
+		io.Closer
+	}{rc, rc}, nil
 }
 
 // c15SlowProbe delays the answer of GetAttr / Has (not the probe itself).
@@ -141,6 +170,17 @@ func c15(c *ctx) error {
 			switch r.Intn(7) {
 			case 0, 1, 2:
 				a.kind, a.tree = "upload", c15Tree(r, leaf)
+				a.full = a.tree
+				if names := c04SortedKeys(a.tree); len(names) > 1 && r.Intn(4) == 0 {
+					// one listed file cannot be opened: with skip-missing the bundle is the tree without it
+					a.victim = names[r.Intn(len(names))]
+					a.tree = map[string][2]uint64{}
+					for k, v := range a.full {
+						if k != a.victim {
+							a.tree[k] = v
+						}
+					}
+				}
 			case 3, 4:
 				a.kind = "download"
 				p := pre[r.Intn(len(pre))]
@@ -152,6 +192,7 @@ func c15(c *ctx) error {
 				dd, err := core.CreateDiamond("r", env.Stores, core.DiamondLogger(corekit.Nop))
 				if err != nil {
 					a.kind, a.tree = "upload", c15Tree(r, leaf)
+					a.full = a.tree
 				} else {
 					a.diamond = dd.DiamondID
 				}
@@ -169,10 +210,14 @@ func c15(c *ctx) error {
 			wg.Add(1)
 			go func(a *c15Actor) {
 				defer wg.Done()
+				defer func() { a.mu.Lock(); a.finished = true; a.mu.Unlock() }()
 				<-start
 				switch a.kind {
 				case "upload":
-					b := corekit.NewBundle(cst, "r", corekit.TreeStore(c15Files(a.tree)), uint32(leaf), "")
+					// the source hands out plain readers (io.Copy then reuses its 32 KiB buffer between writes),
+					// and — for some uploads with skip-missing — cannot open one file that it lists
+					src := &c15Src{Store: corekit.TreeStore(c15Files(a.full)), unreadable: a.victim}
+					b := corekit.NewBundle(cst, "r", src, uint32(leaf), "", core.SkipMissing(a.victim != ""))
 					a.err = corekit.Recover(func() error { return core.VerifUpload(context.Background(), b, per, nil) })
 					a.bundleID = b.BundleID
 				case "download":
@@ -205,7 +250,20 @@ func c15(c *ctx) error {
 			}(a)
 		}
 		close(start)
-		wg.Wait()
+		allDone := make(chan struct{})
+		go func() { wg.Wait(); close(allDone) }()
+		select {
+		case <-allDone:
+		case <-time.After(90 * time.Second):
+			// an operation that never returns is reported as failed (its goroutine is abandoned)
+			for _, a := range actors {
+				a.mu.Lock()
+				if !a.finished {
+					a.err = fmt.Errorf("hang: the operation did not return within 90 s")
+				}
+				a.mu.Unlock()
+			}
+		}
 		// every result is what the operation would have produced alone
 		for j, a := range actors {
 			switch a.kind {
